@@ -1180,7 +1180,9 @@ RULE = ("run i draws, from random.Random(splitmix64(VERIF_SEED,'C16',i)), a "
         "digest of (configuration, intents); non-trivial = >=1 step "
         "rejected and >=1 later step accepted.")
 ASSUMPTIONS = [
-    "single-threaded use; python without -O",
+    "python without -O; steps made from other threads run one at a time "
+    "(the main thread waits); a step that does not return within 4.5 s "
+    "without its thread moving is recorded as outcome 'hang'",
     "differential oracle: a defect that is identical with and without the "
     "rejected steps is invisible here (that is C15's and C11's business)",
     "interrupts or allocation failures between two directory writes of one "
